@@ -141,3 +141,18 @@ Theorem concurrent_render_results_in_layer_order :
     imap pool_size true results completion_order split = (results, None).
 Proof. exact imap_result_objects. Qed.
 
+(* request beyond the SRS extent of the service (srs_extents): every pixel of the answer that lies inside the extent
+   is the pixel of the image merged for the part inside the extent; every pixel outside is fully transparent
+   (format options without an explicit RGB / L mode) *)
+Theorem beyond_srs_extent_inside_is_merged_image :
+  forall o sub placement i k,
+    nth_error placement i = Some (Some k) -> (k < length (view sub))%nat ->
+    exists p, nth_error (im_px (sub_image_source o sub placement)) i = Some p /\ nth_error (view sub) k = Some p.
+Proof. exact sub_image_source_inside. Qed.
+
+Theorem beyond_srs_extent_outside_is_transparent :
+  forall o sub placement i,
+    ro_mode o <> Some M_RGB -> ro_mode o <> Some M_L ->
+    nth_error placement i = Some None ->
+    exists p, nth_error (im_px (sub_image_source o sub placement)) i = Some p /\ px_a p = 0.
+Proof. exact sub_image_source_outside. Qed.
